@@ -578,6 +578,67 @@ theorem C18_crf_lookup (avtp : Nat) :
     · obtain ⟨i1, i2, i3⟩ := ih (mclkNext q prev).2 (mclkNext q prev).1
       exact ⟨by omega, by omega, i3⟩
 
+theorem CrfState.lookup_queue (avtp : Nat) : ∀ fuel (st : CrfState),
+    (CrfState.lookup avtp fuel st).2.queue.length ≤ st.queue.length := by
+  intro fuel
+  induction fuel with
+  | zero => intro st; exact Nat.le_refl _
+  | succ fuel ih =>
+    intro st
+    unfold CrfState.lookup
+    have hn : st.next.2.queue.length ≤ st.queue.length := by
+      unfold CrfState.next; cases hq : st.queue <;> simp
+    simp only
+    split
+    · exact hn
+    · exact Nat.le_trans (ih _) hn
+
+theorem recoverMclk_length (t p : Nat) : (recoverMclk t p).length ≤ 160 := by
+  unfold recoverMclk
+  exact Nat.le_trans (List.length_filterMap_le _ _) (by simp)
+
+/-- the search / advance never grows the timestamp queue -/
+theorem crfAdvance_queue (st : CrfState) (avtp : Nat) :
+    (crfAdvance st avtp).2.queue.length ≤ st.queue.length := by
+  unfold crfAdvance
+  split
+  · have hl := CrfState.lookup_queue avtp MCLK_LOOKUP_MAX st
+    simp only
+    split
+    · exact hl
+    · exact hl
+  · simp only
+    unfold CrfState.next; cases hq : st.queue <;> simp
+
+theorem crf_queue_update (s : CrfState) (a : Bool) : ({ s with prevAligned := a } : CrfState).queue = s.queue := rfl
+
+/-- **C18 (CRF listener, AAF-listener mode).** One datagram — any length, any content — is one
+    total step: it queues at most the 160 media-clock timestamps of one CRF PDU (only for a
+    PDU of the exact size that passes validation) and never grows the queue otherwise. -/
+theorem C18_crf_step (st : CrfState) (pkt : List Byte) :
+    (crfListenerStep st pkt).1.queue.length ≤ st.queue.length + 160 := by
+  unfold crfListenerStep
+  simp only
+  split
+  · (first | omega | (dsimp only; omega))
+  · split
+    · split
+      · simp only [List.length_append]
+        have := recoverMclk_length (beN (recvInto CRF_BUF 0 pkt).1 20 8) st.prev
+        (first | omega | (dsimp only; omega))
+      · (first | omega | (dsimp only; omega))
+    · split
+      · split
+        · (first | omega | (dsimp only; omega))
+        · have h := crfAdvance_queue st (getNamed Spec.pcm (recvInto CRF_BUF 0 pkt).1 0 "AVTP_TIMESTAMP")
+          split
+          · dsimp only; omega
+          · -- (stated through a rewrite so that the kernel never compares the two states field by
+            -- field, which would unfold the 640-step search)
+            rw [crf_queue_update]
+            exact Nat.le_trans h (Nat.le_add_right _ _)
+      · (first | omega | (dsimp only; omega))
+
 /-! non-vacuity -/
 example : (mclkLookup 5 640 [] 0).1 = none := by decide +kernel
 example : (mclkLookup 250000 640 [] 0).1 = some 250000 := by decide +kernel
